@@ -36,6 +36,7 @@ type c08T struct {
 	S string `json:"s,omitempty"` // str: utf8|large|enum; bin: bin|large|fix; ts: ""|utc
 	E []c08T `json:"e,omitempty"` // ptr/list: 1 child, map: key,item, struct: fields
 	U string `json:"u,omitempty"` // ts under dir "as": declared unit s|ms|us|ns ("" = us)
+	M string `json:"m,omitempty"` // leaf: the Go type is a NAMED type with this method flavour (c08_named.go)
 }
 
 type c08V struct {
@@ -158,6 +159,9 @@ func (t c08T) opt() string {
 }
 
 func (t c08T) goType() reflect.Type {
+	if t.M != "" {
+		return c08NamedType(t)
+	}
 	switch t.K {
 	case "int":
 		return c08IntGo[t.G]
@@ -198,6 +202,11 @@ func (t c08T) goType() reflect.Type {
 }
 
 func (t c08T) coq() string {
+	if t.M != "" {
+		u := t
+		u.M = ""
+		return App("C08.TNamed", c08Meths(t.M), u.coq())
+	}
 	switch t.K {
 	case "int":
 		return App("C08.TInt", c08IntCoq[t.G], c08IntCoq[t.A])
@@ -827,6 +836,12 @@ func c08Columns(b arrow.RecordBatch) string {
 
 func c08Tags(t c08T, v c08V, wire bool, tags map[string]bool) {
 	tags["ty-"+t.K] = true
+	if t.M != "" {
+		tags["named-"+t.M] = true
+		if c08NamedRefused(t) {
+			tags["finding-named-kind-refused"] = true
+		}
+	}
 	switch t.K {
 	case "ptr":
 		if v.Nil {
@@ -1016,6 +1031,9 @@ func c08RunAS(in c08In) CaseOut {
 func c08Run(in c08In) CaseOut {
 	if in.Dir == "as" || in.Dir == "asw" {
 		return c08RunAS(in)
+	}
+	if in.Dir == "res" {
+		return c08RunRes(in)
 	}
 	rt := in.T.goType()
 	s1, e1 := vgirpc.SchemaForStruct(rt)
@@ -1438,12 +1456,15 @@ func c08RandVal(r *rand.Rand, t c08T, wire bool) c08V {
 }
 
 func c08KeyTypes() []c08T {
-	return []c08T{c08Str, c08I64, c08IntT("i32", "i32"), c08IntT("u8", "u8"), c08IntT("int", "i64"), c08IntT("u64", "u64")}
+	return []c08T{c08Str, c08NamedStr("sv", "utf8"), c08NamedStr("sa", "utf8"), c08I64, c08IntT("i32", "i32"), c08IntT("u8", "u8"), c08IntT("int", "i64"), c08IntT("u64", "u64")}
 }
 
 // a plain type (usable under map / nested list), depth-bounded
 func c08RandPlain(r *rand.Rand, depth int) c08T {
 	ps := c08PlainScalars()
+	if r.Intn(8) == 0 {
+		return c08RandNamed(r, true)
+	}
 	if depth <= 0 || r.Intn(3) > 0 {
 		return ps[r.Intn(len(ps))]
 	}
@@ -1464,6 +1485,9 @@ func c08RandPlain(r *rand.Rand, depth int) c08T {
 func c08RandField(r *rand.Rand, depth int) c08T {
 	ps, ts := c08PlainScalars(), c08TaggedScalars()
 	scalar := func() c08T {
+		if r.Intn(8) == 0 {
+			return c08RandNamed(r, false)
+		}
 		if r.Intn(2) == 0 {
 			return ps[r.Intn(len(ps))]
 		}
@@ -1524,6 +1548,9 @@ func c08Gen(r *rand.Rand, n int, tier string) []c08In {
 		out = append(out, c08In{Dir: dir, T: t, V: v, Tag: tag})
 	}
 	one := func(dir string, ft c08T, fv c08V, tag string) { add(dir, c08StructT(ft), c08L(fv), tag) }
+
+	// -- boundary block 0: named types with methods in every position, and the result path
+	c08GenNamed(r, add)
 
 	// -- boundary block 1: every scalar type, bare / pointer / list element, both directions
 	all := append(c08PlainScalars(), c08TaggedScalars()...)
